@@ -12,7 +12,7 @@
 //
 // plan lines:
 //   clamp SYS PATH OFF NTH LEN      PATH substring, =exact or *, OFF number or *, NTH 1-based among matching calls or *
-//   fail  SYS PATH NTH ERRNO        ERRNO numeric
+//   fail  SYS PATH NTH ERRNO        ERRNO numeric          failo SYS PATH OFF NTH ERRNO  (at a given file offset)
 //   killbefore K | killafter K      K-th mutating call (1-based)
 //   cloneok
 //   sched SEED MODE DEPTH           MODE delay|pct
@@ -67,6 +67,7 @@ static struct sysdef SYS[] = {
   {SYS_readlink, "readlink", A_PATH0, 0}, {SYS_readlinkat, "readlinkat", A_AT1, 0},
   {SYS_getdents64, "getdents64", A_FD0, 0},
   {SYS_dup, "dup", A_FD0, 0}, {SYS_dup2, "dup2", A_FD0, 0}, {SYS_dup3, "dup3", A_FD0, 0}, {SYS_fcntl, "fcntl", A_FD0, 0},
+  {SYS_umask, "umask", A_NONE, 0},
   {SYS_exit_group, "exit_group", A_NONE, 0},
   {-1, NULL, 0, 0}
 };
@@ -162,6 +163,10 @@ static void load_plan(const char *file) {
     if (c < 1 || k[0] == '#') continue;
     if (!strcmp(k, "clamp") && c == 6) {
       struct rule *r = &R[nR++]; r->kind = 'c'; r->sd = byname(s); strcpy(r->path, p);
+      r->off = !strcmp(o, "*") ? -1 : atol(o); r->nth = !strcmp(n, "*") ? -1 : atol(n); r->val = atol(v);
+      if (!r->sd) { fprintf(stderr, "sup: unknown syscall %s\n", s); exit(2); }
+    } else if (!strcmp(k, "failo") && c == 6) {       // failo SYS PATH OFF NTH ERRNO : fail the NTH call at file offset OFF
+      struct rule *r = &R[nR++]; r->kind = 'f'; r->sd = byname(s); strcpy(r->path, p);
       r->off = !strcmp(o, "*") ? -1 : atol(o); r->nth = !strcmp(n, "*") ? -1 : atol(n); r->val = atol(v);
       if (!r->sd) { fprintf(stderr, "sup: unknown syscall %s\n", s); exit(2); }
     } else if (!strcmp(k, "fail") && c == 5) {
